@@ -76,7 +76,53 @@ func TestC12(t *testing.T) {
 	}
 
 	kinds := []byte{refenc.TDate, refenc.TNewDate, refenc.TTime, refenc.TDateTime, refenc.TTimestamp, refenc.TTimestamp2, refenc.TDateTime2, refenc.TTime2}
+	kindPairs := make([]struct{ T, Real byte }, 0, len(kinds))
+	for _, k := range kinds {
+		kindPairs = append(kindPairs, struct{ T, Real byte }{k, 0})
+	}
+	transitions := zoneTransitions()
+	rec.Note("zone %s: %d offset transitions between 1970 and 2038", getenv("TZ", "(default)"), len(transitions))
 	rapidCheck(t, func(rt *rapid.T) {
+		switch rapid.IntRange(0, 24).Draw(rt, "part_special") {
+		case 0:
+			parallelPart(rt, rec, "C12", kindPairs)
+			return
+		case 1:
+			reannouncePart(rt, rec, "C12")
+			return
+		case 2, 3, 4:
+			// a run of TIMESTAMP cells decoded one after the other around an offset transition of the
+			// process zone (a decoder that caches "the current local day" goes wrong after the change)
+			if len(transitions) == 0 {
+				break
+			}
+			tr := rapid.SampledFrom(transitions).Draw(rt, "transition")
+			n := rapid.IntRange(2, 8).Draw(rt, "run_len")
+			col := hist.Column{Type: refenc.TTimestamp}
+			if rapid.Bool().Draw(rt, "run_ts2") {
+				col = hist.Column{Type: refenc.TTimestamp2, Fsp: rapid.IntRange(0, 6).Draw(rt, "run_fsp")}
+			}
+			t0 := tr - int64(rapid.IntRange(0, 20*3600).Draw(rt, "run_before"))
+			var run []CellCase
+			for i := 0; i < n; i++ {
+				t0 += int64(rapid.IntRange(0, 6*3600).Draw(rt, "run_step"))
+				if t0 < 1 || t0 > 1<<32-1 {
+					continue
+				}
+				run = append(run, CellCase{Col: col, Val: hist.Value{U: uint64(t0)}, Pre: 1, Post: 1})
+			}
+			rec.Case(true, struct {
+				Run []CellCase
+				TZ  string
+			}{run, os.Getenv("TZ")}, "timestamp-run-around-transition")
+			for _, c := range run {
+				if err := checkCell(c); err != nil {
+					cellViolation(rec, c, err)
+					rt.Fatalf("C12 violation (TZ=%s, run of %d timestamps around the zone transition at %d): %v", os.Getenv("TZ"), len(run), tr, err)
+				}
+			}
+			return
+		}
 		k := rapid.SampledFrom(kinds).Draw(rt, "kind")
 		col := gen.ColumnOf(rt, k, 0, gen.ColumnOpt{Extra: true})
 		c := CellCase{Col: col, Val: gen.ValueOf(rt, col, limits()), Pre: rapid.IntRange(0, 4).Draw(rt, "pre"), Post: rapid.IntRange(0, 4).Draw(rt, "post")}
